@@ -9,17 +9,37 @@ use text_utils::verif::{Obj, ThreadKind};
 /// One execution: `body` (the call of the subject function, run uncontrolled on its own thread)
 /// with `workers` controlled counting threads of the given kind following the schedule `prefix`.
 pub fn exec<R: Send + 'static>(kind: ThreadKind, workers: usize, prefix: &[usize], body: impl FnOnce() -> R + Send + 'static) -> Exec<R> {
+    exec_mode(kind, workers, false, prefix, body)
+}
+
+/// `controlled_reducer`: the calling thread is a controlled thread as well (logical thread 0): its
+/// spawns and its receives on the count channel are scheduling points and the channel is the real
+/// bounded channel (needs `num_threads >= 1`; a rendezvous channel is not modelled). Otherwise only
+/// the workers are controlled and the reducer runs freely (see the module comment).
+pub fn exec_mode<R: Send + 'static>(kind: ThreadKind, workers: usize, controlled_reducer: bool, prefix: &[usize], body: impl FnOnce() -> R + Send + 'static) -> Exec<R> {
     let cfg = Config {
         threads: (0..workers).map(|i| (kind, i)).collect(),
-        consumer_controlled: false,
+        consumer_controlled: controlled_reducer,
         horizon: 2000,
         prefix: prefix.to_vec(),
         state_fn: None,
         monitor: None,
         step_log: None,
-        free_receivers: vec![Obj::CountChan],
+        free_receivers: if controlled_reducer { vec![] } else { vec![Obj::CountChan] },
     };
     sched::run(cfg, move |_ctl| body())
+}
+
+/// All schedules of workers AND reducer with at most `bound` preemptions.
+pub fn explore_controlled<R: Send + 'static, B: FnOnce() -> R + Send + 'static>(
+    kind: ThreadKind,
+    workers: usize,
+    bound: usize,
+    deadline: Option<Instant>,
+    mut make_body: impl FnMut() -> B,
+    check: impl FnMut(&Exec<R>, &[usize]) -> bool,
+) -> Stats {
+    sched::explore_bounded(bound, deadline, vec![vec![]], |prefix| exec_mode(kind, workers, true, prefix, make_body()), check)
 }
 
 /// All schedules of the counting workers with at most `bound` preemptions.
